@@ -33,6 +33,7 @@ TEMPLATES = {
     'vecops': ('vecops.vtmpl', 'src/collections/vec.rs'),
     'strops': ('strops.vtmpl', 'src/collections/string.rs'),
     'boxops': ('boxops.vtmpl', 'src/boxed.rs'),
+    'lossy': ('lossy.vtmpl', 'src/collections/str/lossy.rs'),
 }
 
 
